@@ -147,7 +147,18 @@ pub fn gen_range_case(r: &mut Rng, max_days: i64) -> (DayCase, i64) {
     (DayCase { p, l, rd, w: None }, days)
 }
 
-pub fn c14(ctx: &mut Ctx, tier: &str, r: &mut Rng, js: &[Value], _reqs: &[String], replay_only: bool) {
+pub fn c14(ctx: &mut Ctx, tier: &str, r: &mut Rng, js: &[Value], reqs: &[String], replay_only: bool) {
+    // requests handed over from a correspondence break: `numdays s e` / `partition s e k`
+    for q in reqs {
+        let t: Vec<&str> = q.split_whitespace().collect();
+        let n = |i: usize| t.get(i).and_then(|x| x.parse::<i64>().ok());
+        let ok = |s: i64, e: i64| s >= rd_of(1, 1, 2) && e <= rd_of(9999, 12, 30) && s >= 1 && e >= 1;
+        match (t.first().copied(), n(1), n(2)) {
+            (Some("numdays"), Some(s), Some(e)) if ok(s, e) => one(ctx, s, e, 0, false),
+            (Some("partition"), Some(s), Some(e)) if ok(s, e) => one(ctx, s, e, n(3).unwrap_or(0).clamp(0, 4096) as usize, false),
+            _ => {}
+        }
+    }
     for v in js {
         if let (Some(s), Some(e), Some(k)) = (v.get("start_rd").and_then(|x| x.as_i64()), v.get("end_rd").and_then(|x| x.as_i64()), v.get("parts").and_then(|x| x.as_u64())) {
             one(ctx, s, e, k as usize, true);
